@@ -1,7 +1,7 @@
 (* C17 -- level 0 stays inside its domain: every operation maps NUL-free strings to NUL-free strings
    (given NUL-free operands).  This is what lets the refinement theorem be chained over operation lists. *)
 From Coq Require Import List NArith ZArith Bool Lia.
-From Muscle Require Import Cont.StrL0 Cont.StrModel Cont.StrLemmas Cont.StrL0Facts Cont.StrOps Cont.StrRefine.
+From Muscle Require Import Cont.StrL0 Cont.StrModel Cont.StrSpec Cont.StrLemmas Cont.StrL0Facts Cont.StrOps Cont.StrRefine.
 Import ListNotations.
 Local Open Scope N_scope.
 
@@ -146,6 +146,19 @@ Proof.
   intros F. unfold l0_escaped. destruct (esc =? 0) eqn:E; [exact F|]. apply N.eqb_neq in E.
   destruct (_ && _); [exact F|]. apply nulfree_esc_fold; trivial. constructor.
 Qed.
+Lemma nulfree_multi_fuel f pairs l max :
+  Forall (fun p => nulfree (snd p)) pairs -> nulfree l -> nulfree (fst (multi_fuel f pairs l max)).
+Proof.
+  intros Fp. revert l max. induction f as [|f IH]; intros l max F; cbn [multi_fuel]; [exact F|].
+  destruct l as [|c t]; [constructor|].
+  destruct (if 0 <? max then key_at pairs (c :: t) else None) as [[k v]|] eqn:EK.
+  - assert (Fv : nulfree v).
+    { destruct (0 <? max); [|discriminate EK]. unfold key_at in EK. apply find_some in EK. destruct EK as [Hin _].
+      rewrite Forall_forall in Fp. apply (Fp _ Hin). }
+    specialize (IH (dropN (lenN k) (c :: t)) (dec_max max) (nulfree_dropN _ _ F)).
+    destruct (multi_fuel f pairs (dropN (lenN k) (c :: t)) (dec_max max)). cbn [fst] in *. apply nulfree_app; now split.
+  - inversion F; subst. specialize (IH t max H2). destruct (multi_fuel f pairs t max). cbn [fst] in *. now constructor.
+Qed.
 Lemma nulfree_clit l c : nulfree l -> carg_ok c -> nulfree (clit_of l c).
 Proof. intros H C. destruct c; cbn [clit_of]; [constructor|apply C|now apply nulfree_dropN]. Qed.
 
@@ -177,6 +190,8 @@ Proof.
   - destruct A as [_ Aw]. pose proof (nulfree_replace_sub l (lit_of l rm) (lit_of l wm) max from F (lit_nulfree l wm F Aw)) as X.
     destruct (l0_replace_sub l (lit_of l rm) (lit_of l wm) max from). inversion H; subst. cbn [fst] in X. split; [exact X|exact I].
   - destruct (list_eqb (cstr bytes) bytes); inversion H; subst; (split; [|exact I]); [exact F|apply cstr_is_nulfree].
+  - pose proof (nulfree_multi_fuel (S (length l)) pairs l max A F) as X. unfold l0_replace_multi in H.
+    destruct (multi_fuel (S (length l)) pairs l max). inversion H; subst. cbn [fst] in X. split; [exact X|exact I].
   - inversion H; subst; clear H; cbn [out0_nulfree]. split; [|exact I]. destruct (i <? lenN l); [|exact F].
     unfold upd, blit. apply nulfree_app; split; [now apply nulfree_takeN|]. apply nulfree_app; split; [|now apply nulfree_dropN].
     constructor; [exact A|constructor].
@@ -225,6 +240,8 @@ Proof.
   - inversion H; subst; clear H; cbn [out0_nulfree]. now apply nulfree_strip_ch_prefix_nc.
   - inversion H; subst; clear H; cbn [out0_nulfree]. destruct A as [Aa As]. apply nulfree_with_word; trivial. now apply lit_nulfree.
   - inversion H; subst; clear H; cbn [out0_nulfree]. now apply nulfree_indented.
+  - inversion H; subst; clear H; cbn [out0_nulfree]. apply nulfree_l0_arg; [exact F|apply (float_text_facts buf minDigits A)].
+  - inversion H; subst; clear H; cbn [out0_nulfree]. exact (nulfree_multi_fuel (S (length l)) pairs l max A F).
   - inversion H; subst; clear H; cbn [out0_nulfree]. apply nulfree_app; split; [exact F|constructor; [exact A|constructor]].
   - inversion H; subst; clear H; cbn [out0_nulfree]. apply nulfree_app; split; [exact (cstr_is_nulfree [ch])|exact F].
   - inversion H; subst; clear H; cbn [out0_nulfree]. apply nulfree_app; split; [apply A|exact F].
